@@ -15,10 +15,10 @@ def validContentType (ct : Nat) : Bool := 20 ≤ ct ∧ ct ≤ 24
 def validHandshakeType (t : Nat) : Bool :=
   t = 0 ∨ t = 1 ∨ t = 2 ∨ t = 3 ∨ t = 11 ∨ t = 12 ∨ t = 13 ∨ t = 14 ∨ t = 15 ∨ t = 16 ∨ t = 20
 
-/-- `DtlsRecord::decode(buf: &mut Bytes)`: `[]` = `Ok(None)`, else
-`[type, major, minor, epoch, seq48, length, fold(payload)]` -/
-def recordDecode : Cur (List Nat) := do
-  if (← remaining) < 13 then pure [] else
+/-- `DtlsRecord::decode(buf: &mut Bytes)`: `([], _)` = `Ok(None)`, else
+`([type, major, minor, epoch, seq48, length], payload)` -/
+def recordDecodeP : Cur (List Nat × Buf) := do
+  if (← remaining) < 13 then pure ([], ⟨#[], 0⟩) else
   let ct ← peek 0
   if ¬ validContentType ct then bail s!"Invalid_ContentType:_{ct}" else
   let major ← peek 1
@@ -30,10 +30,15 @@ def recordDecode : Cur (List Nat) := do
   let l1 ← peek 11
   let l2 ← peek 12
   let length := l1 * 256 + l2
-  if (← remaining) < 13 + length then pure [] else
+  if (← remaining) < 13 + length then pure ([], ⟨#[], 0⟩) else
   advance 13
   let payload ← splitTo length
-  pure [ct, major, minor, e1 * 256 + e2, beVal sq 0 6, length, foldA payload.rest]
+  pure ([ct, major, minor, e1 * 256 + e2, beVal sq 0 6, length], payload)
+
+/-- digest form: `[]` = `Ok(None)`, else `[type, major, minor, epoch, seq48, length, fold(payload)]` -/
+def recordDecode : Cur (List Nat) := do
+  let r ← recordDecodeP
+  pure (if r.1 = [] then [] else r.1 ++ [foldA r.2.rest])
 
 /-- `HandshakeMessage::decode(buf: &mut Bytes)`: `[]` = `Ok(None)`, else
 `[type, total_length, message_seq, fragment_offset, fragment_length, fold(body)]` -/
@@ -57,31 +62,6 @@ def handshakeDecode : Cur (List Nat) := do
   advance 12
   let body ← splitTo fragLen
   pure [t, (a1 * 256 + a2) * 256 + a3, s1 * 256 + s2, (o1 * 256 + o2) * 256 + o3, fragLen, foldA body.rest]
-
-/-- the record loop of `handle_incoming_packet` (decode part): digests of the records walked;
-state = records so far (reversed) -/
-def recordWalkBody (acc : List (List Nat)) : Cur (List (List Nat) ⊕ List (List Nat)) := do
-  if (← remaining) = 0 then pure (.inr acc.reverse) else
-  let r ← attemptD recordDecode []
-  if ¬ r.1 then pure (.inr acc.reverse)                -- `Err(e) => data = Bytes::new()` → loop ends
-  else if r.2 = [] then pure (.inr acc.reverse)        -- `Ok(None) => break`
-  else pure (.inl (r.2 :: acc))
-
-def recordWalk : Cur (List (List Nat)) := do
-  let fuel := (← remaining) + 1
-  loopM recordWalkBody fuel []
-
-/-- the message loop of `process_handshake_payload` (decode part) -/
-def handshakeWalkBody (acc : List (List Nat)) : Cur (List (List Nat) ⊕ List (List Nat)) := do
-  if (← remaining) = 0 then pure (.inr acc.reverse) else
-  let r ← attemptD handshakeDecode []
-  if ¬ r.1 then pure (.inr acc.reverse)                -- `Err(e) => return Ok(())`
-  else if r.2 = [] then pure (.inr acc.reverse)
-  else pure (.inl (r.2 :: acc))
-
-def handshakeWalk : Cur (List (List Nat)) := do
-  let fuel := (← remaining) + 1
-  loopM handshakeWalkBody fuel []
 
 /-- `ClientHello::decode` -/
 def clientHelloDecode : Cur (List Nat) := do
@@ -292,13 +272,20 @@ def seqRun : Nat → Nat → Cur Nat
     let s' ← seqAdvance s
     seqRun k s'
 
-/-! ### acceptance + fragment reassembly bookkeeping of `process_handshake_payload` (dtls/mod.rs:640-745) -/
+/-! ### acceptance + fragment reassembly bookkeeping of `process_handshake_payload` (dtls/mod.rs ~648-810, current tree)
+
+Compared with the real run loop on every run (stream `dtlsctx`: a hook publishes the context after each datagram) for
+message types whose handler is a no-op for the endpoint's role, so that the bookkeeping itself is what is observed. -/
 
 structure HsCtx where
   recvSeq : Nat := 0          -- u16
+  msgSeq : Nat := 0           -- our own send counter (unchanged by no-op handlers)
   postHvr : Bool := false
   incLen : Nat := 0           -- `incomplete_handshake.len()`
   incSeq : Nat := 0
+  transcript : Nat := 0       -- `handshake_messages.len()`
+  hasKeys : Bool := false
+  failed : Bool := false      -- `?` left `process_handshake_payload` with an error
 
 /-- a decoded handshake message header: type, total_length, message_seq, fragment_offset, fragment_length (= body length) -/
 structure HsMsg where
@@ -309,38 +296,102 @@ structure HsMsg where
   fragLen : Nat
 
 /-- acceptance of `message_seq` against `recv_message_seq` (with the post-HelloVerifyRequest re-sync on the client):
-`(accepted, new recv_message_seq)` -/
-def acceptSeq (isClient : Bool) (recv : Nat) (postHvr : Bool) (seq : Nat) : Bool × Nat :=
-  if seq < recv then (if postHvr ∧ isClient then (true, seq) else (false, recv))
-  else if seq > recv then (if postHvr ∧ isClient then (true, seq) else (false, recv))
-  else (true, recv)
+`(accepted, new recv_message_seq, synced)` -/
+def acceptSeq (isClient : Bool) (recv : Nat) (postHvr : Bool) (typ seq : Nat) : Bool × Nat × Bool :=
+  -- only the ServerHello (type 2) opens the server's post-cookie flight and may move the counter
+  if seq < recv then (if postHvr ∧ isClient ∧ typ = 2 then (true, seq, true) else (false, recv, false))
+  else if seq > recv then (if postHvr ∧ isClient ∧ typ = 2 then (true, seq, true) else (false, recv, false))
+  else (true, recv, false)
 
-/-- fragment handling of an accepted message; result 1 = dispatched to its handler, 2 = buffered (incomplete) -/
-def reassemble (c : HsCtx) (m : HsMsg) : Cur (Nat × HsCtx) := do
+/-- fragment handling + counters of an accepted message; the handler itself is a no-op here -/
+def reassemble (c : HsCtx) (m : HsMsg) : Cur HsCtx := do
   if m.total ≠ m.fragLen then
-    let inc0 := if c.incSeq ≠ m.seq ∨ m.fragOff = 0 then 0 else c.incLen   -- "new message or first fragment, reset buffer"
-    alloc m.fragLen                                       -- `incomplete_handshake.extend_from_slice(&msg.body)`
-    let inc := inc0 + m.fragLen
-    if inc < m.total then pure (2, { c with incLen := inc, incSeq := m.seq }) else
+    -- "new message or first fragment, reset buffer"
+    let reset := c.incSeq ≠ m.seq ∨ m.fragOff = 0
+    let inc0 := if reset then 0 else c.incLen
+    let c : HsCtx := { c with incLen := inc0, incSeq := if reset then m.seq else c.incSeq }
+    -- fragment ranges may overlap: a fragment starting inside or at the end of the buffer contributes the bytes beyond it;
+    -- early fragments and pure duplicates are ignored
+    if m.fragOff > c.incLen ∨ m.fragOff + m.fragLen ≤ c.incLen then pure c else
+    alloc (m.fragOff + m.fragLen - c.incLen)              -- `incomplete_handshake.extend_from_slice(&msg.body[have - offset..])`
+    let inc := m.fragOff + m.fragLen
+    if inc < m.total then pure { c with incLen := inc } else
     alloc (12 + inc)                                      -- re-encoded `full_raw`
-    let s ← seqAdvance c.recvSeq
-    pure (1, { c with incLen := 0, incSeq := m.seq, recvSeq := s })   -- `incomplete_handshake.split()` leaves it empty
+    let r ← attemptD (seqAdvance c.recvSeq) 0
+    if ¬ r.1 then pure { c with incLen := 0, failed := true } else   -- `split()` already emptied the buffer
+    let tr := if m.typ = 20 ∨ m.typ = 0 ∨ m.typ = 3 then c.transcript else c.transcript + (12 + inc)
+    pure { c with incLen := 0, recvSeq := r.2, transcript := tr }
   else
-    let s ← seqAdvance c.recvSeq
-    pure (1, { c with recvSeq := s })
+    let r ← attemptD (seqAdvance c.recvSeq) 0
+    if ¬ r.1 then pure { c with failed := true } else
+    alloc (if m.typ = 20 ∨ m.typ = 0 ∨ m.typ = 3 then 0 else 12 + m.fragLen)
+    let tr := if m.typ = 20 ∨ m.typ = 0 ∨ m.typ = 3 then c.transcript else c.transcript + (12 + m.fragLen)
+    pure { c with recvSeq := r.2, transcript := tr }
 
-/-- one decoded message through the acceptance / reassembly logic; result 0 = skipped (duplicate / out of order),
-1 = dispatched, 2 = buffered, 3 = duplicate ClientHello re-dispatched on the server (retransmit trigger) -/
-def onMessage (isClient : Bool) (c : HsCtx) (m : HsMsg) : Cur (Nat × HsCtx) :=
-  let a := acceptSeq isClient c.recvSeq c.postHvr m.seq
-  if ¬ a.1 then pure (if m.seq < c.recvSeq ∧ m.typ = 1 ∧ ¬ isClient then 3 else 0, c)
-  else reassemble { c with recvSeq := a.2, postHvr := false } m
+/-- one decoded message through acceptance, the clear-text-after-keys skip and reassembly -/
+def onMessage (isClient authenticated : Bool) (c : HsCtx) (m : HsMsg) : Cur HsCtx :=
+  let a := acceptSeq isClient c.recvSeq c.postHvr m.typ m.seq
+  if ¬ a.1 then pure c                                    -- duplicate / out of order: skipped
+  else
+    let c : HsCtx := { c with recvSeq := a.2.1, postHvr := if a.2.2 then false else c.postHvr }
+    if ¬ authenticated ∧ c.hasKeys then pure c else
+    reassemble { c with postHvr := false } m
 
-/-- a whole history of decoded messages; stops at the first error (the handshake is aborted) -/
-def onMessages (isClient : Bool) : HsCtx → List HsMsg → Cur HsCtx
-  | c, [] => pure c
-  | c, m :: rest => do
-    let r ← onMessage isClient c m
-    onMessages isClient r.2 rest
+/-- the message loop over one record payload (decode with `handshakeDecode`, progress as in `handshakeWalk`) -/
+def payloadBody (isClient authenticated : Bool) (c : HsCtx) : Cur (HsCtx ⊕ HsCtx) := do
+  if (← remaining) = 0 then pure (.inr c) else
+  let r ← attemptD handshakeDecode []
+  if ¬ r.1 then pure (.inr c) else                         -- decode error: `return Ok(())`
+  match r.2 with
+  | [t, total, seq, fragOff, fragLen, _] =>
+    let c ← onMessage isClient authenticated c ⟨t, total, seq, fragOff, fragLen⟩
+    if c.failed then pure (.inr c) else pure (.inl c)
+  | _ => pure (.inr c)                                    -- `Ok(None)`
+
+def payloadWalk (isClient authenticated : Bool) (c : HsCtx) : Cur HsCtx := do
+  let fuel := (← remaining) + 1
+  loopM (payloadBody isClient authenticated) fuel { c with failed := false }
+
+/-- a history of record payloads (one per datagram); an error ends only its payload -/
+def payloadHistory (isClient : Bool) : HsCtx → List (List UInt8) → Cur (List HsCtx)
+  | _, [] => pure []
+  | c, p :: rest => do
+    let r ← onBuf (Buf.ofList p) (payloadWalk isClient false c)
+    let more ← payloadHistory isClient r.1 rest
+    pure (r.1 :: more)
+
+/-! ### the record loop of `handle_incoming_packet` (dtls/mod.rs ~474-523) on an endpoint WITHOUT negotiated keys -/
+
+/-- one record of a datagram; state = handshake context -/
+def datagramBody (isClient : Bool) (c : HsCtx) : Cur (HsCtx ⊕ HsCtx) := do
+  if (← remaining) = 0 then pure (.inr c) else
+  let r ← attemptD recordDecodeP ([], ⟨#[], 0⟩)
+  if ¬ r.1 then pure (.inr c) else                        -- `Err(e) => data = Bytes::new()`
+  match r.2.1 with
+  | [ct, _, _, epoch, _, _] =>
+    -- epoch 0 never carries application data; an alert must be protected once keys exist
+    if epoch = 0 ∧ (ct = 23 ∨ (ct = 21 ∧ c.hasKeys)) then pure (.inl c) else
+    if epoch ≠ 0 then pure (.inr c) else                  -- `try_decrypt_record` fails without keys: `break`
+    if ct = 22 then
+      let p ← onBuf r.2.2 (payloadWalk isClient false c)
+      if p.1.failed then pure (.inr p.1) else pure (.inl p.1)
+    else if ct = 21 then
+      -- `if payload.len() >= 2 { let description = payload[1]; … }`
+      let _ ← onBuf r.2.2 (do if (← remaining) ≥ 2 then peek 1 else pure 1)
+      pure (.inl c)
+    else pure (.inl c)                                    -- ChangeCipherSpec (read_epoch saturating), Heartbeat
+  | _ => pure (.inr c)                                    -- `Ok(None) => break`
+
+def datagramWalk (isClient : Bool) (c : HsCtx) : Cur HsCtx := do
+  let fuel := (← remaining) + 1
+  loopM (datagramBody isClient) fuel { c with failed := false }
+
+/-- a history of datagrams handed to the handshake run loop; an error ends only its datagram -/
+def datagramHistory (isClient : Bool) : HsCtx → List (List UInt8) → Cur (List HsCtx)
+  | _, [] => pure []
+  | c, d :: rest => do
+    let r ← onBuf (Buf.ofList d) (datagramWalk isClient c)
+    let more ← datagramHistory isClient r.1 rest
+    pure (r.1 :: more)
 
 end RtcModel.C07.Dtls
